@@ -213,6 +213,8 @@ def run(ctx):
     ctx.rule("UNI-2", "`x?` is built from the alternative that is not the one known to be empty")
     ctx.rule("UNI-3", "a removed common prefix is re-attached in front and a removed common suffix behind the factored rest")
     uni(ctx, lib)
+    ctx.rule("UNI-4", "a path of the union that returns only one alternative knows the other is absent, equal, or (class tokens) included in it per a table verified against the Unicode tables")
+    uni4(ctx, prog, lib)
     ctx.rule("CON-1", "concatenate(a, b): on every abstract path everything derived from a precedes everything derived from b in the returned expression")
     ctx.rule("REV-1", "no insert(0, item) inside a forward loop over the items being copied (reverses the run)")
     con1(ctx, lib)
@@ -282,6 +284,103 @@ def uni(ctx, lib):
     uni2(ctx, lib)
     # UNI-3: a removed common prefix is re-attached in front, a removed common suffix behind (abstract paths of the union function; helpers inlined)
     uni3(ctx, lib)
+
+
+def uni4(ctx, prog, lib):
+    """UNI-4: the union never drops an alternative.  A path that returns only one of the two operands must know that the other one is absent (None), equal to it, or - when
+    the decision is taken by looking the two class tokens up in a constant table of inclusions - that every pair of that table is a true inclusion of the Unicode classes
+    (verified against the tables regex-syntax compiles, negated classes by complement)."""
+    from sa import ccp, tables
+    from sa.facts import cval
+    opt = "&std::option::Option<%s>" % EXPR
+    us = [b for b in lib.bodies if b.kind in ("assoc_fn", "fn") and len([t for t in b.sig_inputs if t == opt]) == 2 and b.sig_output == opt[1:]]
+    preds = {b.path for b in lib.bodies if b.sig_inputs == ["&" + EXPR] and b.sig_output == "bool"}
+    n4 = 0
+    for u in us:
+        pnames = [u.locals[i + 1].get("name") or "arg%d" % (i + 1) for i, t in enumerate(u.sig_inputs) if t == opt]
+
+        def inl(n):
+            x = lib.body(n)
+            return x is not None and n != u.path and x.sig_output in (EXPR, opt[1:]) and n not in preds and not x.derived and not x.impl_trait
+        leaves = ccp.Machine([lib], inline=inl, max_leaves=6000).run(u, None)
+        rets = [l for l in leaves if l.kind == "return"]
+        if not any(isinstance(x, ccp.Agg) and x.kind == "adt" and x.label.endswith("::Alternation") for l in rets for x in _walk_v(l.value)):
+            continue
+        verdicts = {}
+        for l in rets:
+            txt = ccp.show(l.value) if l.value is not None else ""
+            roots = {p_ for p_ in pnames if any(isinstance(x, ccp.Sym) and x.name == p_ for x in _walk_v(l.value))}
+            if len(roots) != 1 or "None" in txt[:40]:
+                continue
+            kept = next(iter(roots))
+            other = [p_ for p_ in pnames if p_ != kept][0]
+            lab = l.label
+            # the analysis does not relate `x.is_some()` with the discriminant of `x.clone()`: drop paths on which the two contradict each other
+            infeasible = False
+            for p_ in pnames:
+                via_call = [v == "True" for a, v in lab if re.search(r"is_some\(%s\)$" % re.escape(p_), a)] + [v == "False" for a, v in lab if re.search(r"is_none\(%s\)$" % re.escape(p_), a)]
+                via_discr = [v == "1" for a, v in lab if re.search(r"^discr\(.*clone\(%s\)\)$" % re.escape(p_), a)]
+                if via_call and via_discr and set(via_call) != set(via_discr) and len(set(via_call)) == 1 and len(set(via_discr)) == 1:
+                    infeasible = True
+            if infeasible:
+                continue
+            absent = any(re.search(r"discr\(.*clone\(%s\)\)$" % re.escape(other), a) and v in ("0", "not in [1]") for a, v in lab) \
+                or any(re.search(r"is_some\(%s\)$" % re.escape(other), a) and v == "False" for a, v in lab) \
+                or any(re.search(r"is_none\(%s\)$" % re.escape(other), a) and v == "True" for a, v in lab)
+            equal = any(a.startswith("Ne(") and v == "False" and all(p_ in a for p_ in pnames) for a, v in lab) \
+                or any(re.match(r"^(?:Eq\(|.*PartialEq.*::eq\()", a) and v == "True" and all(p_ in a for p_ in pnames) for a, v in lab)
+            optional = any("::is_empty(" in a and other in a and v == "True" for a, v in lab) and "QuestionMark" in txt
+            if absent or equal or optional:
+                verdicts.setdefault(("ok", "absent/equal/optional"), 0)
+                verdicts[("ok", "absent/equal/optional")] += 1
+                continue
+            tabs = [a for a, v in lab if v == "True" and re.search(r"::contains\((?:array|&|static|\w)", a) and "tuple(" in a]
+            if tabs:
+                verdicts.setdefault(("table", ""), 0)
+                verdicts[("table", "")] += 1
+            else:
+                verdicts.setdefault(("undecided", "; ".join("%s=%s" % (a[:50], v) for a, v in lab[-3:])), 0)
+        if not verdicts:
+            continue
+        n4 += 1
+        bad = None
+        if any(k[0] == "table" for k in verdicts):
+            oracle = common.regex_oracle_tables(ctx, prog, "UNI-4")
+            sets = {}
+            for tok, neg in (("\\d", "\\D"), ("\\w", "\\W"), ("\\s", "\\S")):
+                if tok.replace("\\\\", "\\") in oracle or tok in oracle:
+                    pass
+            for tok in ("\\d", "\\w", "\\s"):
+                key = tok.encode().decode("unicode_escape") if False else tok
+            for tok, (pth, rs, _) in oracle.items():
+                sets[tok] = rs
+                sets[tok.upper()] = tables.complement(rs)
+            ntab = 0
+            for cpath, c in lib.consts.items():
+                v = cval(c.get("value")) if c.get("value") is not None else None
+                if not (isinstance(v, list) and v and all(isinstance(x, tuple) and len(x) == 2 and all(isinstance(y, str) for y in x) for x in v)):
+                    continue
+                if not all(y in sets for x in v for y in x):
+                    continue
+                ntab += 1
+                for sub, sup in v:
+                    if not tables.is_subset(sets[sub], sets[sup]):
+                        diff = tables.difference(sets[sub], sets[sup])
+                        bad = (cpath, sub, sup, diff[0][0] if diff else None)
+                        break
+            if ntab == 0 and bad is None:
+                ctx.undecided("UNI-4", u.path, "an alternative is dropped after a table lookup, but no constant table of class-token pairs was found", u.loc())
+                continue
+        und = [k for k in verdicts if k[0] == "undecided"]
+        if bad:
+            ctx.violation("UNI-4", (u.path, "alternative dropped: %s not within %s" % (bad[1], bad[2])),
+                          "the union drops an alternative when the table %s says its class is contained in the other one, but the entry (%s, %s) is not an inclusion: %s is in %s and "
+                          "not in %s, so test cases with such a character there are no longer accepted" % (bad[0], bad[1], bad[2], tables.fmt_cp(bad[3]) if bad[3] is not None else "?", bad[1], bad[2]), u.loc())
+        elif und:
+            ctx.undecided("UNI-4", u.path, "a path returns only one of the two alternatives under a condition the analysis cannot justify (%s)" % und[0][1], u.loc())
+        else:
+            ctx.ok("UNI-4", u.path, {"one_sided_paths": sum(verdicts.values())}, u.loc())
+    ctx.floor("UNI-4", "unions with one-sided result paths", n4, 1)
 
 
 def uni3(ctx, lib):
